@@ -4,6 +4,7 @@ import (
 	"context"
 	"errors"
 	"fmt"
+	"math/rand/v2"
 	"sort"
 	"strings"
 	"sync"
@@ -13,7 +14,10 @@ import (
 	ch "github.com/WuKongIM/WuKongIM/pkg/channel"
 	"github.com/WuKongIM/WuKongIM/pkg/channel/replication"
 	channelstore "github.com/WuKongIM/WuKongIM/pkg/channel/store"
+	"github.com/WuKongIM/WuKongIM/pkg/db/verifhook"
 	goruntimeregistry "github.com/WuKongIM/WuKongIM/pkg/goroutine"
+	"github.com/cockroachdb/pebble/v2"
+	"github.com/cockroachdb/pebble/v2/vfs"
 )
 
 // decisions returned by World.Park at the seams of this engine
@@ -50,6 +54,8 @@ type cfg struct {
 	FSync         bool
 	FAllAnswer    bool // installs only attempted while every voter is reachable
 	Regime        int  // 0 disciplined+all-answer, 1 disciplined, 2 adversarial control plane
+	StoreMode     int  // 0 memory channel store, 1 real MessageDB (commit coordinator, Pebble) on a simulated disk
+	MemTable      int  // Pebble memtable size in MessageDB mode
 	Retained      int
 	PageBytes     int
 	BatchItems    int
@@ -65,7 +71,10 @@ type cfg struct {
 
 type simNode struct {
 	id      ch.NodeID
-	factory *channelstore.MemoryFactory
+	factory channelstore.Factory
+	// MessageDB store mode: the node's disk and the open factory over it
+	fs  *vfs.MemFS
+	mdb *channelstore.MessageDBFactory
 	reader  replication.ReplicaStore // scheduler-side reads of durable state (no seams)
 	store   *simStore
 	rt      *replication.Runtime
@@ -379,7 +388,85 @@ func (q *qworld) noteProbe(from, target ch.NodeID, batch replication.ExchangeBat
 	}
 }
 
+// openDisk (re)opens the node's durable store: the memory factory is created
+// once and survives restarts as it is; in MessageDB mode a real MessageDB
+// (commit coordinator, Pebble) is opened on the node's simulated disk.
+func (q *qworld) openDisk(n *simNode) error {
+	if q.cfg.StoreMode == 0 {
+		if n.factory == nil {
+			n.factory = channelstore.NewMemoryFactory()
+		}
+	} else {
+		if n.fs == nil {
+			n.fs = vfs.NewCrashableMem()
+		}
+		fs := n.fs
+		verifhook.SetPebbleHook(func(o *pebble.Options) {
+			o.FS = fs
+			o.MemTableSize = uint64(q.cfg.MemTable)
+			o.CacheSize = 1 << 20
+			o.Logger = verifhook.QuietLogger{}
+		})
+		mdb := channelstore.NewMessageDBFactoryWithOptions(fmt.Sprintf("/n%d", n.id), channelstore.MessageDBFactoryOptions{
+			// The commit coordinator holds the channel store's lock while it waits for
+			// its flush window. A 1 ns window (instead of 500 µs) closes as soon as the
+			// bubble is idle, so no store lock is held at a quiescent state and the
+			// oracles can read durable state through the same store.
+			CommitShards: 1, CommitFlushWindow: time.Nanosecond})
+		verifhook.SetPebbleHook(nil)
+		if _, err := mdb.ChannelStore("1:probe", ch.ChannelID{ID: "probe", Type: 1}); err != nil {
+			return fmt.Errorf("open MessageDB on simulated disk: %w", err)
+		}
+		n.mdb = mdb
+		n.factory = mdb
+	}
+	rd, err := replication.NewStoreAdapter(replication.StoreAdapterConfig{Factory: n.factory, MaxBatchItems: 256, MaxBatchBytes: 4 << 20})
+	if err != nil {
+		return err
+	}
+	n.reader = rd
+	return nil
+}
+
+// crashDisk captures what survives a crash right now and closes the abandoned
+// incarnation against the old disk object, so that nothing it writes while
+// shutting down reaches the surviving disk. pct=100 is a process kill, 0 a power
+// loss (only synced data), anything between keeps a tape-chosen subset of the
+// unsynced blocks and directory entries (torn and lost writes).
+func (q *qworld) cloneDisk(n *simNode, pct int, seed uint64) *vfs.MemFS {
+	if q.cfg.StoreMode == 0 || n.fs == nil {
+		return nil
+	}
+	return n.fs.CrashClone(vfs.CrashCloneCfg{UnsyncedDataPercent: pct, RNG: rand.New(rand.NewPCG(seed, 0x9e3779b97f4a7c15))})
+}
+
+// swapDisk closes the dead incarnation's store against the abandoned disk and
+// reopens the node's store on the clone taken at the crash instant.
+func (q *qworld) swapDisk(n *simNode, clone *vfs.MemFS, pct int) {
+	if clone == nil {
+		return
+	}
+	if n.mdb != nil {
+		_ = n.mdb.Close()
+		n.mdb = nil
+	}
+	n.fs = clone
+	n.factory = nil
+	n.reader = nil
+	// reopen on the surviving disk at once: the oracles read a down node's
+	// durable state, and recovery of the store itself is part of what is tested
+	if err := q.openDisk(n); err != nil {
+		q.fail("replica-unreadable", "reopen", fmt.Sprintf("n%d: store does not reopen on the disk that survived a crash (unsynced kept %d%%): %v", n.id, pct, err), nil)
+		q.tainted = true
+	}
+}
+
 func (q *qworld) newNodeRuntime(n *simNode) error {
+	if n.reader == nil {
+		if err := q.openDisk(n); err != nil {
+			return err
+		}
+	}
 	inner, err := replication.NewStoreAdapter(replication.StoreAdapterConfig{
 		Factory: n.factory, MaxBatchItems: replication.MaxExchangeBatchItems, MaxBatchBytes: replication.MaxExchangeBatchBytes,
 	})
@@ -426,6 +513,9 @@ type replicaView struct {
 
 func (q *qworld) view(n *simNode, cs *chanState) replicaView {
 	ctx := context.Background()
+	if n.reader == nil {
+		return replicaView{err: errors.New("store not open")}
+	}
 	res, err := n.reader.Load(ctx, replication.LoadBatch{Items: []replication.LoadRequest{{ChannelKey: cs.key, ChannelID: cs.id}}})
 	if err != nil || len(res.Items) != 1 || res.Items[0].Err != nil {
 		if err == nil && len(res.Items) == 1 {
